@@ -40,7 +40,7 @@ struct IterH {
 	void reset() { it.reset(); end.reset(); ait.reset(); aend.reset(); acc.reset(); dit.reset(); dend.reset(); down.reset(); }
 };
 
-struct Client { std::vector<ETH> et; std::vector<IterH> iters; VATA::AutBase::StateToStateMap trim_map; /* a translation map the client keeps and hands to one trimming call after the other */ };
+struct Client { std::vector<ETH> et; std::vector<IterH> iters; VATA::AutBase::StateToStateMap trim_map; /* a translation map the client keeps and hands to one trimming call after the other */ VATA::AutBase::StateToStateMap reindex_map; StateType reindex_cnt = 0; /* one renaming shared by consecutive ReindexStates calls (weak translator over a kept map and counter, as Union does internally) */ };
 
 std::vector<Client> g_clients;
 std::vector<ET::AlphabetType> g_alphas;          // index 0 unused (= library default / global alphabet)
@@ -952,7 +952,10 @@ void op_reindex(const Step& s) {
 	api_begin();
 	if (mod(kind, 5) == 4) {
 		// weak translator over a map, counter starting anywhere (what SanitizeAutsForInclusion does)
-		StateMap sm; StateType cnt = StateType(r.below(3) ? 0 : r.below(50));
+		// bit 1 of the flags: the client's kept map and counter - consecutive calls share one renaming, states met before keep their numbers
+		bool kept = (s.arg(3) & 2) != 0; Client& cl = CL(s);
+		StateMap own; StateType own_cnt = StateType(r.below(3) ? 0 : r.below(50));
+		StateMap& sm = kept ? cl.reindex_map : own; StateType& cnt = kept ? cl.reindex_cnt : own_cnt;
 		VATA::AutBase::StateToStateTranslWeak tr(sm, [&cnt](const StateType&) { return cnt++; });
 		ET res = a.aut->ReindexStates(tr);
 		if (armed("C14")) {
@@ -960,7 +963,7 @@ void op_reindex(const Step& s) {
 			count(c_oracle_evals);
 			// the translator is the map the result is the image under: it must know every occurring state (more entries do no harm)
 			for (long q : ma.states()) if (!m.count(q)) violation("C14.translator", "et_reindex:weak", "weak translator has no entry for state " + std::to_string(q) + " after the call");
-			check_image(s, ma, TA(), read_back(res), m, true, "et_reindex:weak");
+			check_image(s, ma, TA(), read_back(res), m, true, kept ? "et_reindex:weak:kept-map" : "et_reindex:weak");
 			check_operands_unchanged(s, a, nullptr, "C14");
 			note_ta_case(ma, nullptr, 11);
 		}
